@@ -9,11 +9,14 @@ clauses (order, sign, prefix, leading, fraction, pairing) on what FDApy returned
 """
 from __future__ import annotations
 
+import ast
 import itertools
+import os
 from fractions import Fraction
 
 import numpy as np
 
+import common
 from common import F, Rng, close_all, digest, err_class, fl, pmat, pvec, rs
 from fpca_util import (trapz_weights, multi_lowrank, pow2, EigCapture, Fm, Fv, Smat, Svec, curves, dense, grid, non_increasing, quiet,
                        raw_from_call, sel_to_model, sel_to_py)
@@ -39,6 +42,150 @@ PARTIAL = [
 UNSORTED = "solver_output_unsorted"
 
 ENTRY = {"helper": "_compute_eigen"}
+
+
+# --------------------------------------------------------------------------
+# translator: `_select_number_eigencomponents` -> lean/FDAModel/Generated/SelectNpc.lean
+# --------------------------------------------------------------------------
+
+GEN_FILE = os.path.join(common.LEAN_DIR, "FDAModel", "Generated", "SelectNpc.lean")
+TRANSLATOR = dict(status="not run")
+
+
+class _Unrecognised(Exception):
+    pass
+
+
+def _is_call(node, mod, name):
+    return (isinstance(node, ast.Call) and isinstance(node.func, ast.Attribute) and node.func.attr == name
+            and isinstance(node.func.value, ast.Name) and node.func.value.id == mod)
+
+
+def _is_isinstance(node, var, cls):
+    return (isinstance(node, ast.Call) and isinstance(node.func, ast.Name) and node.func.id == "isinstance"
+            and len(node.args) == 2 and isinstance(node.args[0], ast.Name) and node.args[0].id == var
+            and isinstance(node.args[1], ast.Name) and node.args[1].id == cls)
+
+
+def _cmp_op(node):
+    if isinstance(node, ast.Compare) and len(node.ops) == 1 and isinstance(node.ops[0], (ast.Lt, ast.LtE)):
+        return isinstance(node.ops[0], ast.Lt)
+    raise _Unrecognised("comparison is not < or <=")
+
+
+def parse_select_npc(path):
+    """Extract (strict, offset, bound_strict, bound, dispatch) from the source of
+    `_select_number_eigencomponents`; raises `_Unrecognised` for any other shape (no guessing)."""
+    tree = ast.parse(open(path).read())
+    fns = [n for n in ast.walk(tree) if isinstance(n, ast.FunctionDef) and n.name == "_select_number_eigencomponents"]
+    if len(fns) != 1:
+        raise _Unrecognised("function not found")
+    fn = fns[0]
+    if len(fn.args.args) != 2:
+        raise _Unrecognised("signature")
+    E, P = fn.args.args[0].arg, fn.args.args[1].arg
+    body = [b for b in fn.body if not (isinstance(b, ast.Expr) and isinstance(getattr(b, "value", None), ast.Constant))]
+    if len(body) != 1 or not isinstance(body[0], ast.If):
+        raise _Unrecognised("body is not a single if/elif/else chain")
+    branches, node = [], body[0]
+    while True:
+        branches.append((node.test, node.body))
+        if len(node.orelse) == 1 and isinstance(node.orelse[0], ast.If):
+            node = node.orelse[0]
+        else:
+            tail = node.orelse
+            break
+    if not (len(tail) == 1 and isinstance(tail[0], ast.Raise) and isinstance(tail[0].exc, ast.Call)
+            and getattr(tail[0].exc.func, "id", None) == "ValueError"):
+        raise _Unrecognised("else branch does not raise ValueError")
+    out, dispatch = {}, []
+    for test, blk in branches:
+        if _is_isinstance(test, P, "int"):
+            if not (len(blk) == 1 and isinstance(blk[0], ast.Return) and isinstance(blk[0].value, ast.Name) and blk[0].value.id == P):
+                raise _Unrecognised("int branch")
+            dispatch.append("int")
+        elif isinstance(test, ast.Compare) and isinstance(test.left, ast.Name) and test.left.id == P and len(test.ops) == 1 \
+                and isinstance(test.ops[0], ast.Is) and isinstance(test.comparators[0], ast.Constant) and test.comparators[0].value is None:
+            r = blk[0].value if len(blk) == 1 and isinstance(blk[0], ast.Return) else None
+            if not (isinstance(r, ast.Call) and getattr(r.func, "id", None) == "len" and getattr(r.args[0], "id", None) == E):
+                raise _Unrecognised("None branch")
+            dispatch.append("None")
+        elif isinstance(test, ast.BoolOp) and isinstance(test.op, ast.And) and len(test.values) == 2 and _is_isinstance(test.values[0], P, "float"):
+            g = test.values[1]
+            out["bound_strict"] = _cmp_op(g)
+            if not (isinstance(g.left, ast.Name) and g.left.id == P and isinstance(g.comparators[0], ast.Constant)
+                    and isinstance(g.comparators[0].value, (int, float)) and not isinstance(g.comparators[0].value, bool)):
+                raise _Unrecognised("float guard")
+            out["bound"] = Fraction(g.comparators[0].value)
+            if not (len(blk) == 2 and isinstance(blk[0], ast.Assign) and len(blk[0].targets) == 1 and isinstance(blk[0].targets[0], ast.Name)
+                    and isinstance(blk[1], ast.Return)):
+                raise _Unrecognised("float branch")
+            var, val = blk[0].targets[0].id, blk[0].value
+            if not (isinstance(val, ast.BinOp) and isinstance(val.op, ast.Div) and _is_call(val.left, "np", "cumsum") and _is_call(val.right, "np", "sum")
+                    and getattr(val.left.args[0], "id", None) == E and getattr(val.right.args[0], "id", None) == E):
+                raise _Unrecognised("cumulated ratio")
+            ret = blk[1].value
+            if not (isinstance(ret, ast.BinOp) and isinstance(ret.op, ast.Add) and _is_call(ret.left, "np", "sum") and isinstance(ret.right, ast.Constant)
+                    and isinstance(ret.right.value, int) and not isinstance(ret.right.value, bool) and ret.right.value >= 0):
+                raise _Unrecognised("count + constant")
+            c = ret.left.args[0]
+            out["strict"] = _cmp_op(c)
+            if not (isinstance(c.left, ast.Name) and c.left.id == var and getattr(c.comparators[0], "id", None) == P):
+                raise _Unrecognised("comparison operands")
+            out["offset"] = ret.right.value
+            dispatch.append("float")
+        else:
+            raise _Unrecognised("unknown branch test")
+    if sorted(dispatch) != ["None", "float", "int"]:
+        raise _Unrecognised("dispatch is not int / float / None")
+    out["dispatch"] = dispatch + ["raise:ValueError"]
+    return out
+
+
+def lean_source(x):
+    b = lambda v: "true" if v else "false"  # noqa: E731
+    q = x["bound"]
+    return f"""/- GENERATED by harness/c01.py:translate() from FDApy/misc/utils.py:_select_number_eigencomponents — do not edit. -/
+import FDAModel.Eigen
+namespace FDA.Generated
+/-- `np.sum(var_explained {'<' if x['strict'] else '<='} percentage)`. -/
+def fracStrict : Bool := {b(x['strict'])}
+/-- `… + {x['offset']}`. -/
+def fracOffset : Nat := {x['offset']}
+/-- float branch guard `percentage {'<' if x['bound_strict'] else '<='} {q}`. -/
+def floatBoundStrict : Bool := {b(x['bound_strict'])}
+def floatBound : Rat := ({q.numerator} : Rat) / {q.denominator}
+/-- dispatch order found in the source (informative). -/
+def dispatch : List String := [{', '.join(chr(34) + d + chr(34) for d in x['dispatch'])}]
+def selectNpcSrc : List Rat → FDA.Eigen.Sel → Except String Int :=
+  FDA.Eigen.selectNpcParam fracStrict fracOffset floatBoundStrict floatBound
+end FDA.Generated
+"""
+
+
+def translate():
+    """Regenerate `Generated/SelectNpc.lean` from the working tree.  POLICY: an unrecognised source shape
+    (a harmless refactor) neither alarms nor fails — the last generated file is kept, the evidence says so and
+    the correspondence decides; only a successful translation whose proof (`C01.source_selectNpc`) fails is a
+    broken obligation."""
+    path = os.path.join(common.REPO, "FDApy", "misc", "utils.py")
+    try:
+        x = parse_select_npc(path)
+    except (_Unrecognised, SyntaxError, OSError) as e:
+        TRANSLATOR.update(status="source shape not recognised, tie rests on the correspondence only", detail=str(e)[:120])
+        return
+    src = lean_source(x)
+    old = open(GEN_FILE).read() if os.path.exists(GEN_FILE) else None
+    if old != src:
+        os.makedirs(os.path.dirname(GEN_FILE), exist_ok=True)
+        with open(GEN_FILE, "w") as fh:
+            fh.write(src)
+    TRANSLATOR.update(status="translated", strict=x["strict"], offset=x["offset"], bound_strict=x["bound_strict"],
+                      bound=str(x["bound"]), dispatch=x["dispatch"], regenerated=(old != src))
+
+
+def extra_coverage(cases, impls, models):
+    return dict(translator=dict(TRANSLATOR, file="lean/FDAModel/Generated/SelectNpc.lean", theorem="C01.source_selectNpc"))
 
 
 # --------------------------------------------------------------------------
